@@ -105,9 +105,9 @@ class Sequence:
             ops = op.operators
         elif isinstance(op, list):
             ops = self.check(op)
-        else:  # single insert
-            ops = self.check([op])
-            item = slice(item, item + 1)
+        else:  # replace a single operator
+            self.operators[item] = self.check([op])[0]
+            return
         # assume bulk insert
         self.operators[item] = ops
 
